@@ -85,3 +85,10 @@ claimed["C17"] = (
     "struct-mapped objects are not injected into; corrupted inputs that the reference does not classify as must-reject are skipped",
     "DESIGN.md §3 C17",
 )
+claimed["C15"] = (
+    "exploration",
+    "supervised runtime monitor over generated ordered schema pairs: totality (recovered panics, fatal stack overflow attribution), 16-fold repetition for determinism, reflexivity, and a reference statement of the must-reject rules",
+    "Consumer/producer pairs are built through the constructors: a schema with itself, with an independently built twin, with the schema rebuilt from its own description, with single-feature mutants at random depth (ranges made disjoint, kinds replaced, enum values added, properties added/removed, IDs renamed, one-of members removed, discriminators renamed), unrelated pairs, the 9 typed-constructor schemas, and an enumerated matrix of absent/present bounds on both sides for int/float/string/list/map (720 pairs, both directions). Each ValidateCompatibility call is journalled, guarded and repeated 16 times. Violations: no verdict (panic, stack overflow, hang), a verdict that varies, an error for self/twin/rebuilt, nil where internal/ref.Compat says the producer can never be consumed. One known finding (two distinct recursive instances).",
+    "only must-reject classes named by the statement are judged; list sizes are read as size ranges; recursive pairs are probed on two fixed cases per run because each costs a worker restart",
+    "DESIGN.md §3 C15",
+)
